@@ -1,6 +1,8 @@
 import sys, os
 sys.path.insert(0, os.path.join(os.path.dirname(os.path.abspath(__file__)), '..', 'engine'))
 from driver import *
+sys.path.insert(0, os.path.dirname(os.path.abspath(__file__)))
+import common_jobs
 
 REGS = [0xff00, 0xff01, 0xff02, 0xff04, 0xff05, 0xff06, 0xff07, 0xff0f] + list(range(0xff10, 0xff15)) + list(range(0xff16, 0xff1f)) + \
        list(range(0xff20, 0xff27)) + list(range(0xff40, 0xff4c)) + [0xffff]
@@ -19,18 +21,21 @@ def jobs_for(carts):
 
 
 def run(prop, tier, only, explanation, bounds):
-    ck = Check(prop, tier, ['memory'], bodies='image,image/color,math/bits')
+    ck = Check(prop, tier, ['memory', 'ppu', 'oam'], bodies='image,image/color,math/bits')
     ck.bounds = bounds
     ck.assumptions = ['component invariants: lcdInv+palette (C13), DMA engine (C17), timer reload bookkeeping (C12), joypad nibbles (C22), APU field ranges (C18), RTC ranges (C10), cartridge controller registers (C08/C09)']
     carts = ['none'] if tier == 'quick' else list(CARTS)
     if prop == 'C07' and tier == 'quick':
         carts = ['none', 'mbc1']
     ck.run(jobs_for(carts), timeout_ms=600000, only=only, max_unwind=64)
+    ck.run([('memory', 'VerifCycleFrame', dict(CARTS[c], what=w)) for c in carts for w in range(4)], timeout_ms=600000, max_unwind=64, setup=common_jobs.stub_render)
+    # invariants assumed above and not owned by another package's check run here: the OAM corruption window (C17 part B)
+    ck.run([('ppu', e, {}) for e in ('VerifOamWindowInit', 'VerifOamWindowStep', 'VerifOamWindowLCDC')], timeout_ms=300000, setup=common_jobs.stub_render)
     ck.finish(explanation=explanation)
 
 
 def main(tier):
-    run('C06', tier, r'^rb-', 'one write through the real Mapper from every machine state, then the documented read-back of the written location',
+    run('C06', tier, r'^(rb-|frame-|window-)', 'one write through the real Mapper from every machine state, then the documented read-back of the written location',
         {'write address': 'configuration: each plain range with a symbolic address inside it (ROM, VRAM, cartridge RAM, work RAM, echo, OAM, FEA0-FEFF, high RAM, unmapped I/O, wave RAM) and each of the 49 I/O registers; value symbolic',
          'state': 'every component arbitrary under its invariant (PPU at any frame position, LCD on or off; APU on or off; DMA idle or running; timer in any phase)',
          'cartridge': 'quick: ROM-only; thorough: ROM-only, MBC1, MBC2, MBC3, MBC5',
